@@ -64,15 +64,9 @@ Theorem C12_gen_revocationFinalResult_returns_iff : forall (C : Type) (subj : C 
 Proof. exact gen_revocationFinalResult_returns_iff. Qed.
 Print Assumptions C12_gen_revocationFinalResult_returns_iff.
 
-(* behind the shape test the call returns iff no result holds a nil server result *)
-Theorem C12_gen_revocation_guard : forall (C : Type) (subj : C -> string) results chain,
-  gen_verifier_checkRevocationResults C results chain = None ->
-  (gen_verifier_revocationFinalResult C subj results chain <> None <-> forallb servers_ok results = true).
-Proof. exact gen_revocation_guard. Qed.
-Print Assumptions C12_gen_revocation_guard.
-
+(* behind the shape test the call never panics: no contract on the validator is left *)
 Theorem C12_gen_revocation_total : forall (C : Type) (subj : C -> string) results chain,
-  gen_verifier_checkRevocationResults C results chain = None -> forallb servers_ok results = true ->
+  gen_verifier_checkRevocationResults C results chain = None ->
   gen_verifier_revocationFinalResult C subj results chain <> None.
 Proof. exact gen_revocation_total. Qed.
 Print Assumptions C12_gen_revocation_total.
@@ -84,18 +78,19 @@ Theorem C12_gen_revocation_unguarded_panics : forall (C : Type) (subj : C -> str
 Proof. exact gen_revocation_unguarded_panics. Qed.
 Print Assumptions C12_gen_revocation_unguarded_panics.
 
-(* FINDING: the shape test passes and the code panics on a nil entry among the server results *)
-Theorem C12_gen_revocation_nil_server_panics : forall (C : Type) (subj : C -> string) (c : C),
+(* the input that crashed the verifier before fix a146158 (a nil entry among the server results): found
+   because the translation of the logging loop was None there; now the verdict is the result's own *)
+Theorem C12_gen_revocation_nil_server_ok : forall (C : Type) (subj : C -> string) (c : C),
   gen_verifier_checkRevocationResults C [PNew (mk_CertRevocationResult 1 [PNil] 0)] [c] = None
-  /\ gen_verifier_revocationFinalResult C subj [PNew (mk_CertRevocationResult 1 [PNil] 0)] [c] = None.
-Proof. exact gen_revocation_nil_server_panics. Qed.
-Print Assumptions C12_gen_revocation_nil_server_panics.
+  /\ gen_verifier_revocationFinalResult C subj [PNew (mk_CertRevocationResult 1 [PNil] 0)] [c] = Some (1%Z, "").
+Proof. exact gen_revocation_nil_server_ok. Qed.
+Print Assumptions C12_gen_revocation_nil_server_ok.
 
-(* the model says the same: the shapes the test refuses are ordinary failures, a nil server result is the
-   panic, and the contract on the validator cannot be dropped *)
+(* the model says the same: the shapes the test refuses are ordinary failures since d78db00, a nil server
+   result is an ordinary input since a146158 *)
 Theorem C12_gen_revocation_in_model :
   rev_failed true RevBadShape = Some true /\ rev_failed false RevBadShape = None
-  /\ rev_failed true RevNilServer = None.
+  /\ rev_failed true RevNilServer = Some false /\ rev_failed_gen true false RevNilServer = None.
 Proof. repeat split. Qed.
 Print Assumptions C12_gen_revocation_in_model.
 
@@ -222,3 +217,15 @@ Theorem C12_gen_checkExpiry_spec : forall now next,
     else None.
 Proof. exact gen_checkExpiry_spec. Qed.
 Print Assumptions C12_gen_checkExpiry_spec.
+
+(* ---------- K: getVerificationPlugin (model: s_pattr) ---------- *)
+
+Theorem C12_gen_getVerificationPlugin_spec : forall (C : Type) extract si,
+  let r := gen_verifier_getVerificationPlugin C extract si in
+  match snd r with
+  | None => String.eqb (str_trim_space (fst r)) "" = false
+            /\ extract si "io.cncf.notary.verificationPlugin" = (fst r, None)
+  | Some _ => fst r = ""
+  end.
+Proof. exact gen_getVerificationPlugin_spec. Qed.
+Print Assumptions C12_gen_getVerificationPlugin_spec.
